@@ -46,7 +46,8 @@ def run(ctx):
     for sp in ("lenstm", "len2cycle",        # cycles that run through stream /Length entries
                "ladder-kids", "ladder-dict",   # acyclic graphs that are not trees: 2^28 paths through 28 levels
                "xref-index-odd", "xref-w000",  # /Index of odd length; zero-width entries x 2^31 announced entries
-               "ttf-segments"):                # an embedded font whose cmap repeats the whole code range 32767 times
+               "ttf-segments",                 # an embedded font whose cmap repeats the whole code range 32767 times
+               "count-size-huge"):             # page count and trailer /Size both huge (a bound taken from the other field)
         cases.append({"special": sp})
     for f in faults:
         cases.append({"fmt": f["fmt"], "faults": f["faults"], "k": k})
